@@ -291,6 +291,13 @@ var mergeMutations = []struct {
 	{"input-field-type", func(ds []mDef) bool { return setField(ds, "Opt", "flag", func(f *mField) { f.Type = "Int" }) && fixOptDefault(ds) }},
 	{"directive-executable-location", func(ds []mDef) bool { return setDef(ds, "live", func(d *mDef) { d.Locs = "QUERY | FIELD_DEFINITION" }) }},
 	{"directive-executable-location-dropped", func(ds []mDef) bool { return setDef(ds, "live", func(d *mDef) { d.Locs = "FIELD_DEFINITION" }) }},
+	// one executable location more, for each of the executable locations (each is its own branch of a classifier)
+	{"directive-executable-location-added-variable-definition", func(ds []mDef) bool { return setDef(ds, "live", func(d *mDef) { d.Locs = "FIELD | VARIABLE_DEFINITION | FIELD_DEFINITION" }) }},
+	{"directive-executable-location-added-fragment-spread", func(ds []mDef) bool { return setDef(ds, "live", func(d *mDef) { d.Locs = "FIELD | FRAGMENT_SPREAD | FIELD_DEFINITION" }) }},
+	{"directive-executable-location-added-inline-fragment", func(ds []mDef) bool { return setDef(ds, "live", func(d *mDef) { d.Locs = "FIELD | INLINE_FRAGMENT | FIELD_DEFINITION" }) }},
+	{"directive-executable-location-added-fragment-definition", func(ds []mDef) bool { return setDef(ds, "live", func(d *mDef) { d.Locs = "FIELD | FRAGMENT_DEFINITION | FIELD_DEFINITION" }) }},
+	{"directive-executable-location-added-mutation", func(ds []mDef) bool { return setDef(ds, "live", func(d *mDef) { d.Locs = "FIELD | MUTATION | FIELD_DEFINITION" }) }},
+	{"directive-executable-location-added-subscription", func(ds []mDef) bool { return setDef(ds, "live", func(d *mDef) { d.Locs = "FIELD | SUBSCRIPTION | FIELD_DEFINITION" }) }},
 	{"directive-arg-type", func(ds []mDef) bool { return setDef(ds, "live", func(d *mDef) { d.Fields[0].Args = "(every: Float = 5)" }) }},
 	{"directive-arg-default", func(ds []mDef) bool { return setDef(ds, "live", func(d *mDef) { d.Fields[0].Args = "(every: Int = 6)" }) }},
 	{"directive-arg-added", func(ds []mDef) bool { return setDef(ds, "tag", func(d *mDef) { d.Fields[0].Args = "(name: String!, extra: Int)" }) }},
